@@ -522,6 +522,9 @@ class Interp(object):
                 self.in_flight = None
             if self.probe:
                 self.probe(self, "after-top", stmt)
+        if getattr(self, "before_deferred", None) is not None and self.deferred:
+            # a hand-off that runs after the originating actions have finished is about to log
+            self.before_deferred(self)
         while self.deferred:
             self.deferred.pop(0)()
         return self.forest
